@@ -67,7 +67,7 @@ def gen_signatures(tier, seed, scale):
     """-> list of (env, conv, va, ret, args tuple, origin)"""
     sigs = []
     rng = common.Rng(seed).fork("c06-sigs")
-    nrand = int((120 if tier == "quick" else 2500) * scale)
+    nrand = int((120 if tier == "quick" else 5000) * scale)
     for env, conv, has_va, weight in CONVS:
         a64 = env.startswith("a64")
         full = A64_FULL if a64 else FULL
@@ -243,6 +243,15 @@ def aj_arg_chunks(vals):
 # ---------------------------------------------------------------------------------------------
 # ABI table written from the ABI documents (confirmed by clobber / red-zone probes at run time)
 # ---------------------------------------------------------------------------------------------
+
+def san_key(prefix, rep):
+    """stable key for a sanitizer report: kind + first AsmJit frame that is not a tiny support helper (function name only, no paths)"""
+    frames = [f for f in rep["frames"] if "drv_func" not in f]
+    pick = next((f for f in frames if "asmjit" in f and "support.h" not in f and "operand.h" not in f), frames[0] if frames else "?")
+    fn = pick.split(" /")[0].split("(")[0].replace("asmjit::v1_21::", "").strip()
+    kind = re.sub(r"\s*@.*$", "", rep["kind"].split(" on ")[0])[:70]
+    return "%s:sanitizer:%s:%s" % (prefix, kind, fn[:80])
+
 
 def bits(*ids):
     m = 0
@@ -433,7 +442,7 @@ def compare_signature(s, rec, oracle_results, oracles, acc):
             ak, ok = kind_of(a), kind_of(o)
             after = "first"
             if stack_like:
-                after = "after=%s/%s" % (stack_like[-1][1], stack_like[-1][2])
+                after = "after-%s" % stack_like[-1][2]
             if ak == "none":
                 what = "%s:unassigned" % tc
             elif ak == "stack" and ok == "stack":
@@ -558,8 +567,7 @@ def workload_a(chk, exe, tier, scale, cov):
         d, rep = r
         if rep is not None:
             aborted += 1
-            top = next((f for f in rep["frames"] if "asmjit" in f), rep["frames"][0] if rep["frames"] else "?")
-            chk.violation("classify:sanitizer:%s:%s" % (rep["kind"].split(" on ")[0][:70], top.split("(")[0].replace("asmjit::v1_21::", "")[:80]),
+            chk.violation(san_key("classify", rep),
                           "sanitizer report while classifying %s: %s %s" % (sig_text(s), rep["kind"], rep["frames"][:4]),
                           {"part": "classify", "line": driver_line(s)})
     # group by oracle set
@@ -829,7 +837,10 @@ def x86_run(st, insts, stop_at=None):
         if addr[0] == "al":
             ok = addr[1] % min(n, st.align or 16) == 0
         elif st.arch == "x64":
-            ok = (addr[1] - 8) % 16 == 0 if n >= 16 else True
+            if addr[1] >= 8:
+                ok = (addr[1] - 8) % min(n, 64) == 0 if n >= 16 else True    # stack argument: the caller aligns the area to the largest argument
+            else:
+                ok = (addr[1] - 8) % 16 == 0 if n >= 16 else True
         else:
             return
         if not ok:
@@ -1192,6 +1203,7 @@ def judge_case(case, insts):
             ok = False
             break
         nat_bad = vi in native
+        nat_note = ""
         if ok and not nat_bad:
             continue
         sk, dk = s["k"], d["k"]
@@ -1200,9 +1212,10 @@ def judge_case(case, insts):
             if ok and nat_bad:
                 conf = ":native-only"
             elif not ok and not nat_bad:
-                conf = ":symbolic-only"
+                conf = ""
+                nat_note = " | the native run did not expose it (the junk happened to equal the expected bytes)"
         key = "shuffle:%s:%s:%s:%s->%s:via-%s%s" % (arch, kind, cls_of(stype), sk, dk, norm_mn(writer), conf)
-        nat_txt = ""
+        nat_txt = nat_note
         if nat_bad:
             nat_txt = " | native run: expected %s got %s" % (native[vi][2], native[vi][3])
         viol.append((key, "argument %d.%d %s %s -> %s %s (type %s): destination holds %s, expected %s%s | %s" % (
@@ -1317,6 +1330,12 @@ def run_shuffle_job(exe, argv, with_restart):
                 cases.append(d)
         if done:
             break
+        if cases and cases[-1].get("err") == "hang" and cases[-1]["i"] == last:
+            pos = last + 1       # the driver gave up after a watchdog firing (ASan flavour exits instead of leaking)
+            restarts += 1
+            if restarts > 60:
+                break
+            continue
         rep = common.sanitizer_report(err)
         bad = last + 1
         reports.append((bad, rep or {"kind": "driver died rc=%s" % rc, "frames": [err.decode("utf-8", "replace")[-400:]]}, av))
@@ -1384,8 +1403,7 @@ def workload_c(chk, exe_plain, exe_asan, tier, scale, cov):
             only = av + ["--only", str(bad)]
             rc2, out2, err2 = common.run_child([exe] + only, timeout=600)
             rep2 = common.sanitizer_report(err2) or rep
-            top = next((f for f in rep2["frames"] if "asmjit" in f and "drv_func" not in f and "support.h" not in f and "operand.h" not in f), rep2["frames"][0] if rep2["frames"] else "?")
-            chk.violation("shuffle:sanitizer:%s:%s" % (kind, top.split("(")[0].replace("asmjit::v1_21::", "")[:80]),
+            chk.violation(san_key("shuffle", rep2),
                           "sanitizer report in case %d of `%s`: %s %s" % (bad, " ".join(av), rep2["kind"], rep2["frames"][:5]),
                           {"part": "shuffle", "flavour": tag, "argv": only})
         if tag == "asan":
@@ -1411,7 +1429,13 @@ def workload_c(chk, exe_plain, exe_asan, tier, scale, cov):
                         feats.add("stack->stack:" + cls_of(v["src"]["t"]))
                     if v.get("cvt"):
                         feats.add("convert")
+                    if arch == "x86" and tsize(v["src"]["t"]) == 1 and ((v["src"]["k"] == "reg" and v["src"]["id"] >= 4) or (v["dst"]["k"] == "reg" and v["dst"]["g"] == "gp" and v["dst"]["id"] >= 4)):
+                        feats.add("byte-argument-in-esi-edi-ebp")
+                if not feats and c.get("sa_out", -1) >= 0:
+                    feats.add("sa-register-requested")
                 feat = sorted(feats)[0] if feats else "other"
+                if c["err"] == "hang":
+                    feat = "does-not-terminate"
                 moves = ["%s %s->%s %s%s" % (v["src"]["t"], fmt_loc(aj_loc(v["src"])), fmt_loc(aj_loc(v["dst"])), v["eff"], (" (" + v["role"] + ")") if v.get("role") else "") for v in c["vals"] if "dst" in v]
                 refused.setdefault((arch, feat, c["err"]), []).append((len(moves), c, moves))
             if "err" in c and len(rejected_samples) < 6 and "vals" in c:
@@ -1439,12 +1463,18 @@ def workload_c(chk, exe_plain, exe_asan, tier, scale, cov):
             for key, what in viol:
                 av = c["_argv"].split() + ["--only", str(c["i"])]
                 chk.violation(key, what, {"part": "shuffle", "flavour": "plain", "argv": av})
-    for (arch, feat, err), lst in sorted(refused.items()):
+    merged = {}
+    for (arch, feat, err), lst in refused.items():
+        merged.setdefault((arch, feat, err if feat == "other" or err == "hang" else "*"), []).extend(lst)
+    for (arch, feat, err_), lst in sorted(merged.items()):
+        err = lst[0][1]["err"]
         lst.sort(key=lambda x: x[0])
         n, c, moves = lst[0]
-        chk.violation("shuffle:%s:refused:%s:%s" % (arch, feat, err.split(":")[-1]),
-                      "%s returned %s (no code generated) for a valid assignment, %d such cases; smallest: %s/%s %s: %s (fp=%d align=%d sa_out=%d) case %d of `%s`" % (
-                          "update_func_frame" if err.startswith("update") else "emit_args_assignment", err.split(":")[-1], len(lst), c["env"], c["conv"], ",".join(c["sig"]), "; ".join(moves),
+        chk.violation(("shuffle:%s:refused:%s" % (arch, feat if feat != "other" else "other:" + err.split(":")[-1])) if err != "hang" else "shuffle:%s:hang:emit-does-not-terminate" % arch,
+                      "%s %s for a valid assignment, %d such cases; smallest: %s/%s %s: %s (fp=%d align=%d sa_out=%d) case %d of `%s`" % (
+                          "update_func_frame" if err.startswith("update") else "emit_prolog/emit_args_assignment",
+                          ("returned %s (no code generated)" % err.split(":")[-1]) if err != "hang" else "did not return within 400 ms while emitting instructions without bound (watchdog)",
+                          len(lst), c["env"], c["conv"], ",".join(c["sig"]), "; ".join(moves),
                           c["fp"], c["align"], c["sa_out"], c["i"], c["_argv"]),
                       {"part": "shuffle", "flavour": "plain", "argv": c["_argv"].split() + ["--only", str(c["i"])]})
     cov.update({
@@ -1483,8 +1513,7 @@ def workload_b(chk, exe_plain, exe_asan, tier, scale, cov):
         exe, argv, tag = job
         rep = common.sanitizer_report(err)
         if rep:
-            top = next((f for f in rep["frames"] if "asmjit" in f and "drv_func" not in f), rep["frames"][0] if rep["frames"] else "?")
-            chk.violation("interop:sanitizer:%s:%s" % (rep["kind"].split(" on ")[0][:70], top.split("(")[0].replace("asmjit::v1_21::", "")[:80]),
+            chk.violation(san_key("interop", rep),
                           "sanitizer report during `%s`: %s %s" % (" ".join(argv), rep["kind"], rep["frames"][:5]), {"part": "interop", "flavour": tag, "argv": argv})
             continue
         try:
